@@ -12,6 +12,9 @@ pub mod regress;
 pub mod c03;
 pub mod c04;
 pub mod c05;
+pub mod c06;
+pub mod c11;
+pub mod c12;
 pub mod c16;
 pub mod c17;
 pub mod c18;
